@@ -165,6 +165,22 @@ impl Stage for ManyContainers {
             head: vec![Action::Expr(Term::App(7, vec![z]))],
             opts: RuleOpts { ruleset: Some(1), ..Default::default() },
         });
+        // the same two-level read through non-interning primitives (no container literal in the query)
+        if kind == ContKind::Vec {
+            let (z2, vv) = (Term::Var("z2".into()), Term::Var("vv".into()));
+            let inner = Term::Prim("vec-get".into(), vec![Term::Prim("vec-get".into(), vec![vv.clone(), Term::I(0)]), Term::I(0)]);
+            cmds.push(Cmd::Rule {
+                body: vec![Fact::Eq(z2.clone(), Term::App(2, vec![vv])), Fact::Eq(inner, leaf(s.below(4)))],
+                head: vec![Action::Expr(Term::App(7, vec![z2]))],
+                opts: RuleOpts { ruleset: Some(1), ..Default::default() },
+            });
+            let (z3, v1) = (Term::Var("z3".into()), Term::Var("v1".into()));
+            cmds.push(Cmd::Rule {
+                body: vec![Fact::Eq(z3.clone(), Term::App(1, vec![v1.clone()])), Fact::Eq(Term::Prim("vec-get".into(), vec![v1, Term::I(0)]), leaf(s.below(4)))],
+                head: vec![Action::Expr(Term::App(7, vec![z3]))],
+                opts: RuleOpts { ruleset: Some(1), ..Default::default() },
+            });
+        }
         let n_ops = 3 + s.below(7);
         for _ in 0..n_ops {
             match s.below(9) {
